@@ -203,6 +203,8 @@ func Intersection(limit int, sets ...*Set) (*Set, bool) {
 // Union takes a slice of sets and generates a union
 func Union(sets ...*Set) *Set {
 	switch len(sets) {
+	case 0:
+		return NewSet([]string{})
 	case 1:
 		// Return a copy so that the result never aliases the operand.
 		return NewSet(sets[0].GetAll())
